@@ -81,7 +81,10 @@ Pro6 == <<Config(1, 1001, "A", CfgA), Create(2, 1002), Create(3, 1003), Create(4
           Line(14, 1014, 2, "MODE", <<"#a", "+x">>), Line(15, 1015, 2, "INVITE", <<"bob", "#a">>),
           Line(16, 1016, 4, "PASS", <<"services=spw">>), Line(17, 1017, 4, "SERVER", <<"services.example", "1", "S">>),
           [Line(18, 1018, 4, "NICK", <<"B[ot]", "1", "1", "bo", "h", "s", "0", "+o", "B">>) EXCEPT !.hrid = 5],
-          SLine(19, 1019, 4, "B[ot]", "JOIN", <<"#a">>)>>
+          SLine(19, 1019, 4, "B[ot]", "JOIN", <<"#a">>),
+          (* ... and so does a user no ban matches: the key still applies to her *)
+          Create(20, 1020), Line(21, 1021, 20, "NICK", <<"carol">>), Line(22, 1022, 20, "USER", <<"uc", "0", "*", "C">>),
+          Line(23, 1023, 2, "INVITE", <<"carol", "#a">>)>>
 (* a GLINE-banned address: an operator banned the address of a user; every line that now arrives from that *)
 (* address closes its session (ProcessMessage records the new address before anything else), whatever the   *)
 (* command; plus a nickname made of the scandinavian characters only (no bracket)                          *)
